@@ -1134,7 +1134,7 @@ fn parse_mapping(mapping: &Mapping) -> crate::Result<Expression> {
                 let mut rest: Vec<Expression> = vec![]; // NOTE: Don't care about speed of numbers atm
 
                 let mut boolean = false;
-                let mut cast = false;
+                let mut cast = matches!(misc, Some(ModSym::Str));
                 let mut mapping = false;
                 let mut number = false;
                 let mut string = false;
